@@ -17,8 +17,8 @@ import (
 	standardprocess "github.com/attestantio/dirk/services/process/standard"
 	"github.com/attestantio/dirk/services/sender"
 	sendergrpc "github.com/attestantio/dirk/services/sender/grpc"
-	"github.com/attestantio/dirk/testing/resources"
 	localunlocker "github.com/attestantio/dirk/services/unlocker/local"
+	"github.com/attestantio/dirk/testing/resources"
 	"github.com/attestantio/dirk/util"
 	"github.com/herumi/bls-eth-go-binary/bls"
 	pb "github.com/wealdtech/eth2-signer-api/pb/v1"
